@@ -838,6 +838,7 @@ func runHistory(w *W, nops int, histIndex int) {
 		if i == 9 && histIndex%2 == 0 {
 			h.directedBoundary(histIndex / 2)
 		}
+
 		if r.Chance(1, 7) {
 			h.lhOp()
 			continue
@@ -1277,6 +1278,47 @@ func (h *hist) directedBoundary(idx int) {
 	if out, _ := w.tx(dst, op, respIsNoop, rmsg); out == "ok" {
 		k.recvd = true
 		k.ack = w.script["d-ok1"].Ack
+	}
+}
+
+// sendGuardVectors: the real keeper's v2 SendPacket on a throw-away context whose block time lags (or leads) the latest
+// consensus timestamp T the sender's light client holds — clock skew that the shared clock of the two-chain history
+// cannot produce.  One record per (block time, timeout): timeouts around T (already reached on the counterparty as far
+// as the client knows: >=), around the block time (must be after it) and around the 24 h maximum.
+func sendGuardVectors(w *W, o *hx.Out) {
+	for src := 0; src < 2; src++ {
+		id := w.ep(w.pV, src).ClientID
+		T := w.latestConsTime(src, id)
+		if T == 0 {
+			continue
+		}
+		ts := T / 1e9
+		type vec struct {
+			bt  uint64
+			tts []uint64
+			tag string
+		}
+		lag := T - uint64(30*time.Second)
+		lead := T + uint64(45*time.Second)
+		vecs := []vec{
+			{lag, []uint64{ts - 1, ts, ts + 1, ts + 2}, "client-time-boundary"},
+			{lag, []uint64{lag/1e9 - 1, lag / 1e9, lag/1e9 + 1}, "block-time-boundary/lagging"},
+			{lead, []uint64{lead/1e9 - 1, lead / 1e9, lead/1e9 + 1, ts, ts + 1}, "block-time-boundary/leading"},
+			{lead, []uint64{lead/1e9 + 86399, lead/1e9 + 86400, lead/1e9 + 86401}, "max-delta-boundary"},
+		}
+		for _, v := range vecs {
+			for _, tt := range v.tts {
+				y := channeltypesv2.NewPayload(mockv2.PortIDA, mockv2.PortIDB, "v1", "json", []byte("d-ok1"))
+				msg := channeltypesv2.NewMsgSendPacket(id, tt, w.ch[src].SenderAccount.GetAddress().String(), y)
+				ctx, _ := w.ch[src].GetContext().WithBlockTime(time.Unix(0, int64(v.bt)).UTC()).CacheContext()
+				accepted := false
+				panicked, _ := hx.Catch(func() {
+					_, err := w.ch[src].App.GetIBCKeeper().ChannelKeeperV2.SendPacket(ctx, msg)
+					accepted = err == nil
+				})
+				o.Emit("send2guard", map[string]any{"bt": hx.U(v.bt), "tt": hx.U(tt), "lts": hx.U(T)}, map[string]any{"accepted": accepted, "panic": panicked}, v.tag)
+			}
+		}
 	}
 }
 
